@@ -215,7 +215,14 @@ def prune_targets(v, state):
         for i in v.cps_of_service(s):
             if marked(v, i, state):
                 t.add(i)
-    return t
+    # per the contract "any elements with the matching reservation state": the sub-interfaces of those interfaces too
+    # (the code before proposed_fixes/C08-8 does not visit them: finding prune-skips-marked-subinterface)
+    return t | marked_subinterfaces(v, state)
+
+
+def marked_subinterfaces(v, state):
+    return {c for s in v.of_class('NetworkService') for i in v.cps_of_service(s) if v.typ(i) == 'DedicatedPort'
+            for c in v.children(i) if marked(v, c, state)}
 
 
 def expectation(v, flavour, op):
@@ -323,6 +330,17 @@ def frame_violation(pre, post):
 
 _PATHLESS = []
 _PRUNE_SKIPS = []
+_PRUNE_SUBS = []
+
+
+def prune_visits_subinterfaces():
+    # does the RUNNING library's prune also collect the sub-interfaces of service ports and remove a sub-interface
+    # without its parent port (proposed_fixes/C08-8)?  Selects the transcription OPrune8.
+    if not _PRUNE_SUBS:
+        import inspect
+        from fim.user.topology import ExperimentTopology
+        _PRUNE_SUBS.append('delete_parent' in inspect.getsource(ExperimentTopology._prune_interface))
+    return _PRUNE_SUBS[0]
 
 
 def prune_skips_gone():
@@ -511,7 +529,7 @@ class Removals(Stream):
         elif k == 'remove_child':
             t = 'ORemoveChild %d %d' % (ids[o['hids'][0]], nm(op[2]))
         else:
-            t = 'OPrune7' if prune_skips_gone() else 'OPrune'
+            t = 'OPrune8' if prune_visits_subinterfaces() else ('OPrune7' if prune_skips_gone() else 'OPrune')
         cached = k in ('disconnect', 'unpeer', 'remove_interface', 'remove_child')
 
         def cl(lists):
@@ -561,6 +579,16 @@ class Removals(Stream):
                             'service port %s created for %s %s is left behind without its link'
                             % (v.name(i), via, v.name(sps[i]))))
             rest = [i for i in missing if i not in sps]
+            if k == 'prune' and not prune_visits_subinterfaces():
+                subs = marked_subinterfaces(v, op[1])
+                left = [i for i in rest if i in subs]
+                art = [i for i in missing if i in sps and sps[i] in subs]
+                if left:
+                    bad.append(('prune-skips-marked-subinterface',
+                                'sub-interfaces in the pruned state survive prune: %s' % [v.name(i) for i in left]))
+                    rest = [i for i in rest if i not in left and not any(i in v.links_of(c) for c in left)]
+                    bad[:] = [b for b in bad if not (b[0].startswith('stranded-service-port op=prune')
+                                                     and any(("service port %s " % v.name(a)) in b[1] for a in art))]
             if rest:
                 bad.append(('not-deleted op=%s%s' % (k, (' ' + note.replace(' ', '-')) if note else ''),
                             'owned elements or artefacts left behind: %s' % [(v.cls(i), v.name(i)) for i in rest]))
